@@ -3,6 +3,7 @@
 from __future__ import annotations
 
 import ast
+import re
 from typing import Any, Dict, List, Optional, Tuple
 
 from .. import emit
@@ -342,18 +343,33 @@ def _mechanisms(ctx, ea, residues: Dict[str, Any]) -> List[Ob]:
             for n in ast.walk(s):
                 if isinstance(n, ast.Attribute) and norm(n.value) == "self" and n.attr in ("loop_stack", "try_stack"):
                     readers.add(n.attr)
+    per_fn: Dict[str, Dict[str, Tuple[bool, bool, bool]]] = {}
     for fname in ("_compile_function", "_compile_arrow_function"):
         f = ea.methods.get(fname)
         txts = [norm(s) for s in f.body()]
-        for attr in sorted(readers):
-            saved = any(x.endswith(f"= self.{attr}") for x in txts)
-            reset = any(x == f"self.{attr} = []" for x in txts)
+        attrs = set(readers)
+        # every compiler attribute this function saves or re-initialises is per-function state
+        for x in txts:
+            m1 = re.match(r"^old_\w+ = self\.(\w+)$", x)
+            if m1:
+                attrs.add(m1.group(1))
+        per_fn[fname] = {}
+        for attr in sorted(attrs):
+            saved = any(re.match(rf"^\w+ = self\.{attr}$", x) for x in txts)
+            reset = any(re.match(rf"^self\.{attr} = ", x) and not x.startswith(f"self.{attr} = old") for x in txts)
             restored = any(x.startswith(f"self.{attr} = old") for x in txts)
+            per_fn[fname][attr] = (saved, reset, restored)
+    all_attrs = sorted(set().union(*[set(v) for v in per_fn.values()]))
+    for fname in per_fn:
+        f = ea.methods.get(fname)
+        for attr in all_attrs:
+            saved, reset, restored = per_fn[fname].get(attr, (False, False, False))
             key = f"{fname}:state:{attr}"
             if saved and reset and restored:
                 out.append(Ob("O12b", key, True, "", f.loc))
             else:
-                out.append(Ob("O12b", key, False, f"{fname} does not save/reset/restore self.{attr}: break/continue/return inside the nested function see the enclosing function's {attr} (a return inside a function defined in try…finally inlines the outer finally)", f.loc))
+                missing = [w for w, ok in (("save", saved), ("reset", reset), ("restore", restored)) if not ok]
+                out.append(Ob("O12b", key, False, f"{fname} does not {'/'.join(missing)} self.{attr}, which is per-function compiler state ({'read by break/continue/return' if attr in readers else 'saved or reset by a function compiler'}): the enclosing function continues with the nested function's value (or the nested one sees the outer's)", f.loc))
     return out
 
 
